@@ -49,7 +49,7 @@ IU = "esutil.integrate.util."
 
 # rules that keep their verdict however the code is laid out (decided by term equality, effect analysis or dominance over
 # resolved calls); every other rule of this check is a template rule (vcheck.core.Check.obt)
-SEMANTIC = ('R17.1', 'R17.2', 'R17.3', 'R17.5', 'R17.5r', 'R17.7', 'R17.8')
+SEMANTIC = ('R17.1', 'R17.2', 'R17.3', 'R17.5', 'R17.5r', 'R17.6::returns::', 'R17.7', 'R17.8')
 
 
 def run(chk):
@@ -630,7 +630,8 @@ class _CExec:
     and its condition; helper functions with a body are executed in line (value parameters bound to the arguments, `&v` arguments
     written through).  A local pointer that only ever holds positions in one array (_cursors) is kept as its offset there, so
     `*p`, `p[k]`, `++p` are element accesses and index arithmetic.  Not modelled (-> _NotModelled): break/continue, return inside
-    a loop of the same function, element stores or loops under an if, backward goto, pointers stepped without a fixed array.
+    a loop of the same function, loops under an if, element stores on an arm of an if that jumps out, backward goto, pointers stepped
+    without a fixed array.  An element stored on the arms of an if holds a Piecewise over the condition (merge_arm_stores).
     A label of the top level that control falls into (common exit) forgets what is known about the variables."""
 
     def __init__(self, fn, helpers, tu=None):
@@ -655,6 +656,7 @@ class _CExec:
         self.frames = [fn]
         self.access = None
         self.fresh = []
+        self.pending = []         # per open arm of an if: the element stores made on it (merged where the arms join)
         body = cfront.body_of(fn)
         self.block(body.get("inner", []) or [], toplevel=True)
 
@@ -858,8 +860,6 @@ class _CExec:
                 self.assign(self.name(lhs["referencedDecl"]["name"]), val)
             elif loc is not None:
                 base, idx = loc
-                if self.cond_depth:
-                    raise _NotModelled("element store under an if (line %s)" % st.get("line"))
                 if self.access is not None:
                     self.access.append(("w", base, idx))
                 # what is remembered about other elements of the array survives only where the two indices certainly differ
@@ -870,10 +870,7 @@ class _CExec:
                 self.env[("elem", base, idx)] = val
                 for t in self.track:
                     t.add(("array", base))
-                if not self.dry:
-                    # a second store to the same element in one pass replaces the first (reads in between were given the first value)
-                    self.stack[-1].stores = [x for x in self.stack[-1].stores if not (x[0] == base and x[1] == idx)]
-                    self.stack[-1].stores.append((base, idx, val, st.get("line", 0)))
+                self.emit_store(base, idx, val, st.get("line", 0))
             elif _deref_param(lhs) is not None and self.name(_deref_param(lhs)) in self.alias[-1]:
                 self.assign(self.alias[-1][self.name(_deref_param(lhs))], val)
             else:
@@ -924,12 +921,24 @@ class _CExec:
                 c = None
             save = dict(self.env)
             self.cond_depth += 1
-            t1 = self.body(inner[1])
+            self.pending.append([])
+            try:
+                t1 = self.body(inner[1])
+            finally:
+                st_t = self.pending.pop()
             env_t = self.env
             self.env = dict(save)
-            t2 = self.body(inner[2]) if len(inner) > 2 and inner[2].get("kind") else False
+            self.pending.append([])
+            try:
+                t2 = self.body(inner[2]) if len(inner) > 2 and inner[2].get("kind") else False
+            finally:
+                st_f = self.pending.pop()
             env_f = self.env
             self.cond_depth -= 1
+            if (st_t or st_f) and (t1 or t2):
+                raise _NotModelled("element store on an arm of an if that jumps out (line %s)" % st.get("line"))
+            if st_t or st_f:
+                self.merge_arm_stores(c, st_t, st_f, st.get("line", 0))
             if t1 and t2:
                 return True
             if t1:
@@ -1095,6 +1104,52 @@ class _CExec:
         def stmts(body):
             return list(body.get("inner", []) or []) if body.get("kind") == "CompoundStmt" else [body]
         return dict(a, inner=list(ia[:4]) + [{"kind": "CompoundStmt", "line": ia[4].get("line", 0), "inner": stmts(ia[4]) + stmts(ib[4])}])
+
+    def emit_store(self, base, idx, val, line):
+        """the element store `base[idx] = val` of the pass being executed: on an arm of an if it is kept with that arm (the arms
+        are merged where they join, see merge_arm_stores); a second store to the same element in one pass replaces the first
+        (reads in between were given the first value)"""
+        if self.cond_depth:
+            arm = self.pending[-1]
+            arm[:] = [x for x in arm if not (x[0] == base and x[1] == idx)]
+            arm.append((base, idx, val, line))
+        elif not self.dry:
+            self.stack[-1].stores = [x for x in self.stack[-1].stores if not (x[0] == base and x[1] == idx)]
+            self.stack[-1].stores.append((base, idx, val, line))
+
+    def merge_arm_stores(self, c, st_t, st_f, line):
+        """element stores made on the two arms of `if (c)`, as stores of the statement: the element holds the value of the arm taken
+        (a Piecewise over the condition); on an arm that does not store it the element keeps what it held -- the value an earlier
+        store of this pass gave it, else its content before the pass (the term base(idx): a value that is not followed)"""
+        def same(i, j):
+            return i == j or _zero(i - j)
+
+        def last(arm, base, idx):
+            hit = [x for x in arm if x[0] == base and same(x[1], idx)]
+            return hit[-1][2] if hit else None
+
+        def before(base, idx):
+            for arm in reversed(self.pending):
+                v = last(arm, base, idx)
+                if v is not None:
+                    return v
+            v = last(self.stack[-1].stores, base, idx)
+            return v if v is not None else sp.Function(base)(idx)
+        done = []
+        for base, idx, _v, ln in list(st_t) + list(st_f):
+            if any(b == base and same(i, idx) for b, i in done):
+                continue
+            done.append((base, idx))
+            vt, vf = last(st_t, base, idx), last(st_f, base, idx)
+            vt = before(base, idx) if vt is None else vt
+            vf = before(base, idx) if vf is None else vf
+            if vt == vf:
+                val = vt
+            elif c is not None:
+                val = sp.Piecewise((vt, c), (vf, True))
+            else:
+                val = sp.Symbol("?%s[%s]@%s" % (base, idx, line))
+            self.emit_store(base, idx, val, ln)
 
     def loop(self, kind, cond, inc, body, line):
         def one_pass():
@@ -1378,11 +1433,84 @@ def _zero(e):
     return r
 
 
+def _cond_subs(c):
+    """what holds whenever condition c does, as substitutions: for every equation among the conjuncts of c one of its symbols
+    solved for (the equation must be linear in it).  Inequalities and disjunctions say nothing here."""
+    subs = []
+    for t in (c.args if isinstance(c, sp.And) else (c,)):
+        if not isinstance(t, sp.Eq):
+            continue
+        e = t.lhs - t.rhs
+        for a, b in subs:
+            e = e.subs(a, b)
+        e = sp.nsimplify(e, rational=True)
+        for s_ in sorted(e.free_symbols, key=str):
+            if str(s_).startswith("?"):
+                continue
+            k = sp.diff(e, s_)
+            if k != 0 and not k.free_symbols and not k.has(sp.core.function.AppliedUndef):
+                subs.append((s_, sp.simplify(s_ - e / k)))
+                break
+    return subs
+
+
+_INPUT_NAMES = ("x1", "x2", "npts")
+
+
+def _pw_zero(e):
+    """is the term zero for all values of its variables, where a Piecewise is read arm by arm: the value of each arm must vanish
+    under the condition of that arm (the equations in it substituted) -- `x == c ? f(c) : f(x)` is f(x).  True / False, or None
+    when an arm does not vanish as a term but what is left involves values computed by the routine (which the condition may pin
+    down in a way the term domain does not see): only a difference in terms of the routine's inputs alone, on an arm whose
+    condition is about the interval (x1, x2) alone, is a contradiction"""
+    if not isinstance(e, sp.Basic) or not e.has(sp.Piecewise):
+        return _zero(e)
+    try:
+        f = sp.piecewise_fold(e)
+    except Exception:
+        return None
+    if not isinstance(f, sp.Piecewise):
+        return _zero(f)
+    prior = []
+    verdict = True
+    for v, c in f.args:
+        eff = sp.And(c, *[sp.Not(p) for p in prior])
+        prior.append(c)
+        if eff is sp.false:
+            continue
+        r = _pw_zero(v)
+        if r:
+            continue
+        w = v
+        for a, b in _cond_subs(eff):
+            w = w.subs(a, b)
+        if w is not v:
+            r = _pw_zero(w)
+            if r:
+                continue
+        if r is None:
+            verdict = None
+            continue
+        try:
+            w = sp.simplify(w)
+        except Exception:
+            pass
+        # a condition on the interval alone leaves the nodes (which depend on the count and the root number) arbitrary
+        if {str(x) for x in eff.free_symbols} <= set(_INPUT_NAMES[:2]) and {str(x) for x in w.free_symbols} <= set(_INPUT_NAMES) \
+                and not w.atoms(sp.core.function.AppliedUndef) and not eff.atoms(sp.core.function.AppliedUndef):
+            return False
+        verdict = None
+    return verdict
+
+
 def _same_term(a, b):
     if a is None or b is None:
         return a is b
     if a == b:
         return True
+    if isinstance(a, sp.Basic) and isinstance(b, sp.Basic) and (a.has(sp.Piecewise) or b.has(sp.Piecewise)) \
+            and not (a.is_Relational or a.is_Boolean or b.is_Relational or b.is_Boolean):
+        return _pw_zero(a - b)
     if isinstance(a, sp.Basic) and isinstance(b, sp.Basic) and (a.is_Relational or a.is_Boolean or b.is_Relational or b.is_Boolean):
         if a.is_Relational and b.is_Relational:
             return _rel_norm(a) == _rel_norm(b) or (type(a) is type(b) and _zero((a.lhs - a.rhs) - (b.lhs - b.rhs)))
@@ -1446,8 +1574,10 @@ def _state_agrees(a, b, live, diffs, path="fn"):
         diffs.append("%s: element stores %s vs %s" % (path, [k for k, _ in sa], [k for k, _ in sb]))
     else:
         for (k, x), (_, y) in zip(sa, sb):
-            if not _same_term(x[2], y[2]):
-                diffs.append("%s: %s[%s] = %s vs %s" % (path, k[0], k[1], x[2], y[2]))
+            r = _same_term(x[2], y[2])
+            if not r:
+                # "?": not decided (a value stored on an arm of an if whose condition the term domain does not see through)
+                diffs.append("%s%s: %s[%s] = %s vs %s" % ("?" if r is None else "", path, k[0], k[1], x[2], y[2]))
     for k, (x, y) in enumerate(zip(a.children, b.children)):
         _state_agrees(x, y, live, diffs, "%s/loop%d" % (path, k))
 
@@ -1586,7 +1716,8 @@ def siblings(chk, nf_cg, nf_cl):
     d1, d2, rb, m = best
     shown = {k: v for k, v in m.items() if k != v}
     n = sum(len(L.stores) + len((L.defined & la)) for L in nf_cg.walk())
-    chk.ob("R17.2", "gauleg-copies-agree", (not d1) or (False if positive else None), where,
+    undecided = bool(d1) and all(d.startswith("?") for d in d1)
+    chk.ob("R17.2", "gauleg-copies-agree", (not d1) or (False if positive and not undecided else None), where,
            "the cosmology library's copy of the node/weight routine computes the same %d loop-carried values and element stores as the standalone extension%s%s"
            % (n, " (its variables read as %s)" % shown if shown else "", "" if not d1 else ": first difference %s" % d1[0]))
     chk.ob("R17.2", "gauleg-copies-same-loop-structure", (not d2) or (False if positive else None), where, "loop nests agree (%s vs %s)" % (_loop_shape(nf_cg)[2], _loop_shape(rb)[2]))
@@ -2836,6 +2967,186 @@ def _sym_run(se, fi, env):
         return _NoTerm(str(e))
 
 
+# ---------------------------------------------------------------------------
+# R17.6 returns: no input-dependent special case replaces the weighted sum
+# ---------------------------------------------------------------------------
+_MACHINE_CONSTANTS = {"numpy.finfo": ("eps", "epsneg", "tiny", "resolution", "smallest_normal", "smallest_subnormal", "max"),
+                      "sys.float_info": ("epsilon", "min", "max")}
+
+
+def _machine_constant(repo, mod, e):
+    """a positive symbol when the attribute expression is a positive floating-point constant of the platform
+    (numpy.finfo(T).eps / .tiny / .., sys.float_info.epsilon / .min): what is known about it is its sign"""
+    if not isinstance(e, ast.Attribute):
+        return None
+    base = e.value.func if isinstance(e.value, ast.Call) else e.value
+    d = dotted_name(base)
+    full = repo.resolve_name(mod, d) if d else None
+    if full in _MACHINE_CONSTANTS and e.attr in _MACHINE_CONSTANTS[full] and isinstance(e.value, ast.Call) == (full == "numpy.finfo"):
+        return sp.Symbol("FLT_%s" % e.attr.upper(), positive=True)
+    return None
+
+
+class _GuardEnv(symx.Env):
+    """the symbolic evaluator's environment, reading the platform's positive floating-point constants as positive symbols, so that a
+    comparison of a data term with such a constant is a relation between terms rather than a test it cannot see into"""
+
+    def ev(self, e, stmt_level=False):
+        if isinstance(e, ast.Attribute):
+            k = _machine_constant(self.se.repo, self.mod, e)
+            if k is not None:
+                return k
+        return super().ev(e, stmt_level)
+
+
+class _GuardEval(symx.SymEval):
+    def run(self, fi, args, flags=None, depth=0, pins=None):
+        flags = dict(flags or {})
+        env = _GuardEnv(self, fi, fi.module, dict(args), flags, depth=depth)
+        env.pins = dict(pins or {})
+        for p in fi.params:
+            pn = p.lstrip("*")
+            if pn not in env.vars:
+                if pn in fi.defaults:
+                    env.vars[pn] = env.ev(fi.defaults[pn])
+                elif p.startswith("**"):
+                    env.vars[pn] = {}
+                elif p.startswith("*"):
+                    env.vars[pn] = ()
+        for k, v in flags.items():
+            if k in [p.lstrip("*") for p in fi.params]:
+                env.vars[k] = v
+        rets = env.exec_body(fi.node.body, sp.true)
+        env.finish_returns(rets)
+        self.last_env = env
+        return env.result
+
+
+def _region_admits(c, nonneg):
+    """can the condition c (a conjunction of relations between terms that are linear in real-valued symbols, those in `nonneg`
+    ranging over [0, oo) and all others over the reals) hold on a set of inputs with non-empty interior?  True / False / None (not
+    decided: an opaque test, a non-linear relation, more than one inequality).  Equations must have been substituted before."""
+    atoms = list(c.args) if isinstance(c, sp.And) else [c]
+    ineq = []
+    for t in atoms:
+        if t is sp.true or isinstance(t, sp.Ne):
+            continue
+        if t is sp.false:
+            return False
+        if isinstance(t, (sp.Lt, sp.Le)):
+            ineq.append(t.rhs - t.lhs)
+        elif isinstance(t, (sp.Gt, sp.Ge)):
+            ineq.append(t.lhs - t.rhs)
+        else:
+            return None
+    if not ineq:
+        return True
+    if len(ineq) > 1:
+        return None
+    g = sp.expand(ineq[0])
+    if g.atoms(sp.core.function.AppliedUndef) or any(str(x).startswith("B_") for x in g.free_symbols):
+        return None
+    syms = sorted((x for x in g.free_symbols if not x.is_positive or x in nonneg), key=str)
+    try:
+        poly = sp.Poly(g, *syms) if syms else None
+    except sp.PolynomialError:
+        return None
+    if poly is not None and poly.total_degree() > 1:
+        return None
+    const = g if poly is None else poly.coeff_monomial(1)
+    for x in syms:
+        k = poly.coeff_monomial(x)
+        if k == 0:
+            continue
+        if x not in nonneg:
+            return True                      # unbounded in that direction: g > 0 somewhere, and around that point
+        if k.is_positive:
+            return True
+        if not k.is_negative:
+            return None
+    # the largest value of g is its constant term (every remaining symbol is >= 0 and enters with a negative factor)
+    if const.is_positive:
+        return True
+    if const.is_nonpositive:
+        return False
+    return None
+
+
+def _guarded_returns(r, data_terms=()):
+    """`r`: what a function returns, as a term in which the alternatives of tests on the inputs are Piecewise arms.  The value on the
+    last arm (no special case taken) is the reference; every other arm must return the same value under its condition (equations of
+    the condition substituted: `if a == b: return 0` agrees with (b - a)/2 * S).  An arm whose value differs and whose condition
+    holds on a set of inputs with non-empty interior (a threshold on the inputs) replaces the reference there: contradiction.
+    data_terms: (MIN term, MAX term) pairs, read as m and m + d with d >= 0.  -> (True / False / None, text)"""
+    if not isinstance(r, sp.Basic):
+        return None, "the returned value is not a term (%r)" % (r,)
+    nonneg = set()
+    rep = {}
+    for k, (lo, hi) in enumerate(data_terms):
+        m, d = sp.Symbol("xmin%d" % k, real=True), sp.Symbol("xrange%d" % k, nonnegative=True)
+        rep[lo], rep[hi] = m, m + d
+        nonneg.add(d)
+    shown = r
+    r = r.xreplace(rep)
+    if not r.has(sp.Piecewise):
+        return True, "one value on every path that returns"
+    try:
+        f = sp.piecewise_fold(r)
+    except Exception:
+        return None, "the alternatives of the returned value were not separated"
+    if not isinstance(f, sp.Piecewise):
+        return True, "one value on every path that returns"
+    if f.args[-1][1] is not sp.true:
+        return None, "no alternative without a condition"
+    ref = f.args[-1][0]
+    # |t| is a quantity >= 0
+    undecided = None
+    prior = []
+    for v, c in f.args[:-1]:
+        eff = sp.And(c, *[sp.Not(p) for p in prior])
+        prior.append(c)
+        if symx.equal(v, ref)[0]:
+            continue
+        for alt in (eff.args if isinstance(eff, sp.Or) else (eff,)):
+            subs = _cond_subs(alt)
+            w, g, cc = v, ref, alt
+            for a, b in subs:
+                w, g, cc = w.subs(a, b), g.subs(a, b), cc.subs(a, b)
+            if symx.equal(w, g)[0]:
+                continue
+            cc = sp.And(*[t for t in (cc.args if isinstance(cc, sp.And) else (cc,)) if not isinstance(t, sp.Eq)]) if cc not in (sp.true, sp.false) else cc
+            nn = set(nonneg)
+            for k, t in enumerate(sorted(cc.atoms(sp.Abs), key=str)):
+                q = sp.Symbol("abs%d" % k, nonnegative=True)
+                cc = cc.xreplace({t: q})
+                nn.add(q)
+            adm = _region_admits(cc, nn) if isinstance(cc, sp.Basic) and not any(str(x).startswith("B_") for x in cc.free_symbols) else None
+            if adm:
+                back = {}
+                for lo_, hi_ in data_terms:
+                    back[rep[lo_]] = lo_
+                    back[rep[hi_] - rep[lo_]] = hi_ - lo_
+                return False, "when `%s` holds the function returns %s instead of %s: a threshold on the inputs replaces the weighted sum on a whole range of valid inputs" % (
+                    alt.xreplace(back), v.xreplace(back), sp.simplify(ref).xreplace(back))
+            if adm is None:
+                undecided = "the alternative returned when `%s` holds (%s) was not decided" % (alt, v)
+    if undecided:
+        return None, undecided
+    return True, "every alternative return agrees with the general one under its condition (%d alternatives)" % (len(f.args) - 1)
+
+
+def _returns_agree(chk, repo, fi, name, opaque, assume, env, data_terms=()):
+    se = _GuardEval(repo, opaque=opaque, opaque_tests=None)
+    se.assume = dict(assume)
+    r = _sym_run(se, fi, env)
+    if isinstance(r, _NoTerm):
+        ok, txt = None, "the returned value was not inferred with both arms of every test followed (%s)" % r.why
+    else:
+        ok, txt = _guarded_returns(r, data_terms)
+    chk.ob("R17.6", "returns::%s::no-special-case-replaces-the-sum" % name, ok, fi.where(),
+           "every path that returns hands back the weighted sum (a test on the inputs does not replace it by another value): %s" % txt)
+
+
 def integrators(chk, repo, tensor=(None, "")):
     SUM = sp.Function("SUM")
     xxi, wii, a, b, func = symx.symbols("xxi", "wii", "a", "b", "func")
@@ -2848,6 +3159,7 @@ def integrators(chk, repo, tensor=(None, "")):
     ref = f1 * SUM(sp.Function("func")(xxi * f1 + f2) * wii)
     eq = isinstance(r, sp.Basic) and symx.equal(r, ref)[0]
     chk.ob("R17.6", "integrate_func::formula", None if isinstance(r, _NoTerm) else bool(eq), fi.where(), "result is (b-a)/2 * sum(w_i f((b-a)/2 x_i + (a+b)/2)) (found %s)" % r)
+    _returns_agree(chk, repo, fi, "QGauss.integrate_func", (), se.assume, {"self": symx.Opaque("self"), "xvals": [a, b], "func": func, "self.xxi": xxi, "self.wii": wii, "self.npts": sp.Symbol("n")})
     fi = repo.func(IU + "QGauss.integrate_data")
     chk.analysed_unit(fi.qualname)
     xs, ys = symx.symbols("xs", "ys")
@@ -2858,6 +3170,8 @@ def integrators(chk, repo, tensor=(None, "")):
     f1, f2 = (hi - lo) / 2, (hi + lo) / 2
     ref = f1 * SUM(sp.Function("interplin")(ys, xs, xxi * f1 + f2) * wii)
     eq = isinstance(r, sp.Basic) and symx.equal(r, ref)[0]
+    _returns_agree(chk, repo, fi, "QGauss.integrate_data", {"esutil.stat.util.interplin"}, se.assume,
+                   {"self": symx.Opaque("self"), "xvals": xs, "yvals": ys, "self.xxi": xxi, "self.wii": wii, "self.npts": sp.Symbol("n")}, [(lo, hi)])
     chk.ob("R17.6", "integrate_data::formula", None if isinstance(r, _NoTerm) else bool(eq), fi.where(), "result is the weighted sum of the linearly interpolated data interplin(values=y, abscissae=x, at=mapped nodes) over [min x, max x] (found %s)" % r)
     fi = repo.func(IU + "QGauss2.integrate_func")
     chk.analysed_unit(fi.qualname)
@@ -2868,6 +3182,8 @@ def integrators(chk, repo, tensor=(None, "")):
     xf1, xf2, yf1, yf2 = (b - a) / 2, (b + a) / 2, (d - c) / 2, (d + c) / 2
     ref = xf1 * yf1 * SUM(sp.Function("func")(xg * xf1 + xf2, yg * yf1 + yf2) * wg)
     eq = isinstance(r, sp.Basic) and symx.equal(r, ref)[0]
+    _returns_agree(chk, repo, fi, "QGauss2.integrate_func", (), se.assume,
+                   {"self": symx.Opaque("self"), "xrng": [a, b], "yrng": [c, d], "func": func, "self.xgrid": xg, "self.ygrid": yg, "self.wgrid": wg})
     if not eq and tensor[0]:
         # the same statement decided on elements (R17.7 tensor-product-sum): the grids need not be kept as attributes for it
         chk.ob("R17.6", "QGauss2.integrate_func::formula", True, fi.where(), "tensor-product sum with both affine maps and the product prefactor, established element by element: %s" % tensor[1])
